@@ -364,7 +364,43 @@ func c17Flag(e *Env) {
 			}
 		}
 	}
-	r.Check(reads >= 1 && okReads, "R17.4", "internal/pkg/template.Builder#stub-reads", fmt.Sprintf("Builder.stub is read only by Build, to fill data.Stub (%d reads)", reads))
+	// the flag may also go straight from NewBuilder's parameter into the template data (a pre-built data value)
+	direct := false
+	if nb := e.P.Func("internal/pkg/template", "NewBuilder"); nb != nil {
+		for _, prm := range nb.Params {
+			if b, isB := prm.Type().Underlying().(*types.Basic); !isB || b.Kind() != types.Bool {
+				continue
+			}
+			okP, n := true, 0
+			for _, ref := range *prm.Referrers() {
+				switch x := ref.(type) {
+				case *ssa.DebugRef:
+				case *ssa.Store:
+					fa, isFa := x.Addr.(*ssa.FieldAddr)
+					if !isFa || x.Val != ssa.Value(prm) {
+						okP = false
+						continue
+					}
+					switch fieldName(fa) {
+					case "Stub":
+						n++
+					case "stub":
+					default:
+						okP = false
+					}
+				default:
+					okP = false
+				}
+			}
+			if okP && n >= 1 {
+				direct = true
+			}
+			if !okP {
+				okReads = false
+			}
+		}
+	}
+	r.Check((reads >= 1 || direct) && okReads, "R17.4", "internal/pkg/template.Builder#stub-reads", fmt.Sprintf("the --stub flag reaches the templates only as data.Stub: Builder.stub is read only by Build to fill it, or NewBuilder stores its parameter into it (%d reads, direct %v)", reads, direct))
 }
 
 func C20(e *Env) {
